@@ -20,6 +20,13 @@ def py_to_boc(case):
     return "ok " + c.to_boc(has_idx=bool(idx), hash_crc32=bool(crc), has_cache_bits=bool(cache)).hex()
 
 
+def py_parse_any(data):
+    """py_parse on any accepted input form (str hex / base64, bytes, bytearray)"""
+    from pytoniq_core.boc.cell import Cell
+    rs = Cell.from_boc(data)
+    return f"ok {len(rs)} " + " ".join(hm.cell_text(r) for r in rs)
+
+
 def py_parse(h):
     from pytoniq_core.boc.cell import Cell
     rs = Cell.from_boc(bytes.fromhex(h))
